@@ -331,3 +331,29 @@ class VersionStub:
 class ChannelStub:
     channel = 5
     signal_strength = 50
+
+
+# --------------------------------------------- the sequence BYTE on the wire, for every number the counters can hand out
+@harness(prop="C16", target="geckolib.driver.protocol.getchannel:GeckoGetChannelProtocolHandler.request", name="every_request_kind_puts_its_number_into_one_byte")
+def every_request_kind_puts_its_number_into_one_byte():
+    """ground over the whole range of both cycles: the number handed out is exactly the byte that follows the verb (one byte,
+    no text encoding), for every request factory"""
+    from geckolib.driver.protocol.version import GeckoVersionProtocolHandler
+    from geckolib.driver.protocol.getchannel import GeckoGetChannelProtocolHandler
+    from geckolib.driver.protocol.configfile import GeckoConfigFileProtocolHandler
+    from geckolib.driver.protocol.statusblock import GeckoStatusBlockProtocolHandler
+    from geckolib.driver.protocol.watercare import GeckoWatercareProtocolHandler
+    from geckolib.driver.protocol.reminders import GeckoRemindersProtocolHandler
+    from geckolib.driver.protocol.firmware import GeckoUpdateFirmwareProtocolHandler
+    from geckolib.driver.protocol.packcommand import GeckoPackCommandProtocolHandler
+    p = (0, 0, b"d", b"s")
+    for seq in range(1, 256):
+        made = [(b"AVERS", GeckoVersionProtocolHandler.request(seq, parms=p)), (b"CURCH", GeckoGetChannelProtocolHandler.request(seq, parms=p)),
+                (b"SFILE", GeckoConfigFileProtocolHandler.request(seq, parms=p)), (b"STATU", GeckoStatusBlockProtocolHandler.full_request(seq, parms=p)),
+                (b"STATU", GeckoStatusBlockProtocolHandler.request(seq, 256, 480, parms=p)), (b"GETWC", GeckoWatercareProtocolHandler.request(seq, parms=p)),
+                (b"SETWC", GeckoWatercareProtocolHandler.set(seq, 1, parms=p)), (b"REQRM", GeckoRemindersProtocolHandler.request(seq, parms=p)),
+                (b"UPDTS", GeckoUpdateFirmwareProtocolHandler.request(seq, parms=p)), (b"SPACK", GeckoPackCommandProtocolHandler.keypress(seq, 6, 1, parms=p)),
+                (b"SPACK", GeckoPackCommandProtocolHandler.set_value(seq, 6, 1, 1, 10, 1, 1, parms=p))]
+        for verb, h in made:
+            ensures("sequence-number-is-the-single-byte-after-the-verb", h._content[0:6] == verb + bytes([seq]))
+    cover("reached-end", True)
